@@ -23,7 +23,8 @@ ASSUMPTIONS = ["a stored diagonal pixel contributes twice to its bin's marginal 
                "maintains is checked instead"]
 MIN_NONTRIVIAL = {"quick": 70, "thorough": 700}
 REQUIRED_FEATURES = ["mode:gw", "mode:cis", "mode:trans", "converged", "x0:with-zeros-nans", "blacklist:whole-chromosome",
-                     "rescale:off", "mask:min_nnz", "mask:mad_max", "counts:float"]
+                     "rescale:off", "mask:min_nnz", "mask:mad_max", "counts:float", "pixels:stored-zero-counts",
+                     "store:rebalance-existing-column"]
 KAPPA = 4.0
 
 
@@ -60,6 +61,12 @@ def gen_balance_cooler(rng, idx, max_bins=40):
         base = 400.0 / (1.0 + abs(i - j)) ** 0.8 if True else 1.0
         v = base * rng.uniform(0.5, 1.5) * rng.uniform(0.6, 1.4)
         P[(i, j)] = round(v, 3) + 0.001 if isfloat else int(v) + 1
+    if idx % 4 == 2 and P:
+        # explicitly stored zero-count pixels (valid; e.g. a cooler loaded from a dense dump): they are
+        # not "non-zeros" for the min_nnz filter and carry no signal
+        keys = sorted(P)
+        for k_ in rng.permutation(len(keys))[: max(1, len(keys) // 3)]:
+            P[keys[int(k_)]] = 0.0 if isfloat else 0
     return bt, n, P, isfloat, pat
 
 
@@ -156,7 +163,29 @@ def one_case(ctx, cid, rng, idx):
         kw = dict(opts)
         if "x0" in kw:
             kw["x0"] = kw["x0"].copy()          # cooler mutates it
+        stored_twice = bool(idx % 5 == 3)
+        if stored_twice:
+            # history: the column already exists from an earlier run with other settings
+            import h5py
+            c.feature("store:rebalance-existing-column")
+            cooler.balance_cooler(clr, store=True, store_name="weight", ignore_diags=1, min_nnz=0, mad_max=0, max_iters=20)
+            with h5py.File(path, "r") as f:
+                first = f["bins/weight"][:]
+            kw["store"] = True
+            kw["store_name"] = "weight"
+        if any(v == 0 for v in P.values()):
+            c.feature("pixels:stored-zero-counts")
         bias, stats = cooler.balance_cooler(clr, chunksize=cs, **kw)
+        if stored_twice:
+            with h5py.File(path, "r") as f:
+                stored = f["bins/weight"][:]
+                sattrs = dict(f["bins/weight"].attrs)
+            c.check(np.array_equal(stored, bias, equal_nan=True), "stored-column-differs-from-returned-weights",
+                    "after balance_cooler(store=True) over an existing column, bins/weight is not the returned weight vector",
+                    {"stored": stored, "returned": bias, "previous_column": first})
+            c.check(bool(np.all(np.asarray(sattrs.get("converged")) == np.asarray(stats["converged"])))
+                    and bool(sattrs.get("cis_only") == stats["cis_only"]), "stored-column-attrs-differ",
+                    "attributes of the stored column do not describe the run that produced it")
         ref = ic.ref_ic(P, n, chrom_of, **{k: (v.copy() if isinstance(v, np.ndarray) else v) for k, v in opts.items()})
         conv = bool(np.all(stats["converged"]))
         var = np.atleast_1d(np.asarray(stats["var"], dtype=float))
